@@ -928,7 +928,10 @@ class SymTensor:
                 self.a[...] = _f_ite(m, vb, self.a)
                 return
             idx = concretize_mask(idx)
-        self.a[_conv_index(idx)] = to_obj(v)
+        vo = to_obj(v)
+        if vo.ndim == 0:
+            vo = vo[()]  # a 0-d object array would otherwise be stored as an array inside the element
+        self.a[_conv_index(idx)] = vo
 
     def index_select(self, dim, index):
         return SymTensor(np.take(self.a, index.numpy(), axis=dim), self.isbool)
@@ -980,6 +983,20 @@ class SymTensor:
                 pos = tuple(b[k] for b in bidx)
                 self.a[pos] = self.a[pos] + v[k]
         return self
+
+    def scatter_(self, dim, index, src=None, value=None):
+        s = to_obj(src) if src is not None else None
+        if isinstance(index, SymTensor):
+            index = torch.from_numpy(concretize_int(index))
+        ind = index.numpy() if isinstance(index, torch.Tensor) else np.asarray(index)
+        for k in np.ndindex(ind.shape):
+            pos = list(k)
+            pos[dim] = int(ind[k])
+            self.a[tuple(pos)] = s[k] if s is not None else lift(value)
+        return self
+
+    def scatter(self, dim, index, src=None, value=None):
+        return self.clone().scatter_(dim, index, src, value)
 
     def scatter_add_(self, dim, index, src):
         s = to_obj(src)
@@ -1308,6 +1325,9 @@ class SymTensor:
             r = t
         return SymTensor(r)
 
+    def argmax(self, dim=None, keepdim=False):
+        return _argmax(self, dim, keepdim)
+
     def cumsum(self, dim):
         return SymTensor(np.cumsum(to_obj(self), axis=dim))
 
@@ -1616,10 +1636,39 @@ def _t_index_add_(t, dim, index, src, **kw):
     raise NotImplementedError("symtorch: index_add_ of symbolic source into a concrete tensor")
 
 
+@implements(torch.Tensor.expand_as, torch.Tensor.view_as, torch.Tensor.reshape_as)
+def _shape_like(t, other):
+    # a concrete tensor shaped like a symbolic one stays concrete
+    if isinstance(t, SymTensor):
+        return t.expand(*other.shape)
+    return t.expand(tuple(other.shape)) if t.dim() <= len(other.shape) and t.numel() != int(np.prod(tuple(other.shape))) else t.reshape(tuple(other.shape))
+
+
 @implements(torch.nonzero)
 def _nonzero(x, as_tuple=False):
     m = concretize_mask(x if x.isbool else x._cast(torch.bool))
     return torch.nonzero(torch.from_numpy(m), as_tuple=as_tuple)
+
+
+@implements(torch.argmax)
+def _argmax(x, dim=None, keepdim=False):
+    """argmax of a symbolic tensor: element order decided by the explorer (first maximal index, like torch)"""
+    a = to_obj(x)
+    if dim is None:
+        a = a.reshape(1, -1)
+        dim_ = 1
+    else:
+        dim_ = dim % a.ndim
+    am = np.moveaxis(a, dim_, -1)
+    out = np.zeros(am.shape[:-1], dtype=np.int64)
+    for k in np.ndindex(out.shape):
+        best = 0
+        for j in range(1, am.shape[-1]):
+            if _decide(val(am[k][j]) > val(am[k][best])):
+                best = j
+        out[k] = best
+    r = torch.from_numpy(out)
+    return r.reshape(()) if dim is None else r
 
 
 @implements(torch.allclose)
